@@ -236,6 +236,14 @@ func (w *World) Project() (pods []PodState, resv []map[string]any) {
 				ps.St = "done"
 			case pod.DeletionTimestamp != nil:
 				ps.St = "terminating"
+				// a pod that is being bound (live BindRequest) and deleted at the same time still claims the
+				// selected node until it is gone (the binder may complete the bind)
+				if br, ok := brByPod[pod.Name]; ok && pod.Spec.NodeName == "" && nodeExists[br.Spec.SelectedNode] && !brFailed(br) {
+					ps.Node = w.nodeIndex[br.Spec.SelectedNode]
+					gs := append([]string{}, br.Spec.SelectedGPUGroups...)
+					sort.Strings(gs)
+					ps.Groups = gs
+				}
 			case pod.Status.Phase == v1.PodRunning:
 				ps.St = "running"
 			case pod.Spec.NodeName != "":
@@ -414,6 +422,10 @@ func exact(f float64) int {
 	return 0
 }
 
+// rnd rounds to the nearest integer, negative values included (Releasing goes negative by design when
+// more is nominated onto a node than is being released)
+func rnd(f float64) int { return int(math.Floor(f + 0.5)) }
+
 func mb(f float64) int {
 	if f < 0 {
 		return -1
@@ -428,7 +440,11 @@ func unl(f float64) int {
 	return int(f + 0.5)
 }
 
-func (w *World) queueInfo(ssn *framework.Session) {
+func (w *World) queueInfo(ssn *framework.Session) { w.sessionInfo(ssn, "QueueInfo") }
+
+// sessionInfo emits the fair-share state and the node / queue accounting of the session: as
+// "QueueInfo" right after OpenSession and as "SessionEnd" after the last action of the cycle.
+func (w *World) sessionInfo(ssn *framework.Session, evName string) {
 	p, ok := ssn.VerifPlugins()["proportion"]
 	if !ok {
 		return
@@ -447,9 +463,9 @@ func (w *World) queueInfo(ssn *framework.Session) {
 		c := qa.ResourceShare(rs.CpuResource)
 		mm := qa.ResourceShare(rs.MemoryResource)
 		out[i] = map[string]any{"present": 1, "fsG": milli(g.FairShare), "desG": milli(g.Deserved), "limG": milli(g.MaxAllowed),
-			"allocG": milli(g.Allocated), "npG": milli(g.AllocatedNotPreemptible), "reqG": milli(g.Request),
-			"fsC": int(c.FairShare + 0.5), "allocC": int(c.Allocated + 0.5), "reqC": int(c.Request + 0.5),
-			"fsM": mb(mm.FairShare), "allocM": mb(mm.Allocated), "desC": unl(c.Deserved), "desM": mb(mm.Deserved),
+			"allocG": rnd(g.Allocated * 1000), "npG": rnd(g.AllocatedNotPreemptible * 1000), "reqG": milli(g.Request),
+			"fsC": int(c.FairShare + 0.5), "allocC": rnd(c.Allocated), "reqC": int(c.Request + 0.5),
+			"fsM": mb(mm.FairShare), "allocM": rnd(mm.Allocated / 1e6), "desC": unl(c.Deserved), "desM": mb(mm.Deserved),
 			"w": int(g.OverQuotaWeight), "useG": milli(g.Usage),
 			"xG": exact(g.FairShare * 1000), "xC": exact(c.FairShare)}
 	}
@@ -462,11 +478,11 @@ func (w *World) queueInfo(ssn *framework.Session) {
 			continue
 		}
 		nodes[i] = map[string]any{"present": 1,
-			"ic": int(ni.Idle.Cpu() + 0.5), "uc": int(ni.Used.Cpu() + 0.5), "rc": int(ni.Releasing.Cpu() + 0.5),
-			"im": mb(ni.Idle.Memory()), "um": mb(ni.Used.Memory()), "rm": mb(ni.Releasing.Memory()),
-			"ig": milli(ni.Idle.GPUs()), "rg": milli(ni.Releasing.GPUs()), "np": len(ni.PodInfos)}
+			"ic": rnd(ni.Idle.Cpu()), "uc": rnd(ni.Used.Cpu()), "rc": rnd(ni.Releasing.Cpu()),
+			"im": rnd(ni.Idle.Memory() / 1e6), "um": rnd(ni.Used.Memory() / 1e6), "rm": rnd(ni.Releasing.Memory() / 1e6),
+			"ig": rnd(ni.Idle.GPUs() * 1000), "rg": rnd(ni.Releasing.GPUs() * 1000), "np": len(ni.PodInfos)}
 	}
-	w.emit(map[string]any{"ev": "QueueInfo", "q": out, "n": nodes, "totG": milli(tot[rs.GpuResource]), "totC": int(tot[rs.CpuResource] + 0.5), "k": milli(k)})
+	w.emit(map[string]any{"ev": evName, "q": out, "n": nodes, "totG": milli(tot[rs.GpuResource]), "totC": int(tot[rs.CpuResource] + 0.5), "k": milli(k)})
 }
 
 func (w *World) stmtHook(s *framework.Statement, ev string, task *pod_info.PodInfo, arg string) {
@@ -536,6 +552,7 @@ func (w *World) RunCycle(c int) (err error) {
 			w.emit(map[string]any{"ev": "ActionDone", "name": w.curAction})
 		}
 		w.curAction = ""
+		w.sessionInfo(ssn, "SessionEnd")
 	}()
 	framework.VerifStatementHook = nil
 	sc.WaitForWorkers(stop)
